@@ -204,3 +204,120 @@ func ZZ_C13_H2() {
 }
 
 var _ = io.EOF
+
+// ZZ_C13_H3: end of input at any point. The stream has T bytes (T around the node-boundary
+// sizes, or a few bytes), delivered under four fragmentations, the last bytes arriving with or
+// without the end-of-input error in the same read. K operations over {Peek, ReadBinary,
+// ReadByte, Read, Skip}: an operation that fits in what is left behaves as on an endless stream;
+// one that does not fit reports an error and never hands out bytes that are not the wire's; after
+// a Peek that failed for lack of data nothing is lost: Len is what is left and a Peek of exactly
+// that returns it.
+func ZZ_C13_H3() {
+	total := zzSize("total")
+	if zz.Choose("tiny", 2) == 1 {
+		total = zz.Range("tinytotal", 0, 3)
+	}
+	wire := zzWire(total)
+	nc := zz.NewNetConn(wire)
+	frags := []int{0, 1, 1000, 4096}
+	if f := frags[zz.Choose("frag", 4)]; f > 0 {
+		nc.Frag = func(rem int) int { return f }
+	}
+	nc.EOFWithData = zz.Choose("eofWithData", 2) == 1
+	c := newConn(nc, defaultMallocSize).(*Conn)
+	cursor := 0
+	k := zz.Param("K", 2)
+	ok, errOK, restOK := true, true, true
+	failed := false
+	for i := 0; i < k && !failed; i++ {
+		left := total - cursor
+		switch zz.Choose("op", 5) {
+		case 0:
+			n := zzSize("peek")
+			p, err := c.Peek(n)
+			if n <= left {
+				if err != nil || !bytes.Equal(p, wire[cursor:cursor+n]) {
+					ok = false
+				}
+			} else {
+				zz.Cover("peek-beyond-end", true)
+				if err == nil {
+					errOK = false
+				}
+				if len(p) > left || !bytes.Equal(p, wire[cursor:cursor+len(p)]) {
+					ok = false
+				}
+				// nothing lost: everything that is left is buffered and can still be peeked
+				if c.Len() != left {
+					restOK = false
+				}
+				if left > 0 {
+					q, err2 := c.Peek(left)
+					if err2 != nil || !bytes.Equal(q, wire[cursor:]) {
+						restOK = false
+					}
+				}
+			}
+		case 1:
+			n := zzSize("readbinary")
+			p, err := c.ReadBinary(n)
+			if n <= left {
+				if err != nil || !bytes.Equal(p, wire[cursor:cursor+n]) {
+					ok = false
+				}
+				cursor += n
+			} else {
+				if err == nil {
+					errOK = false
+				}
+				failed = true
+			}
+		case 2:
+			b, err := c.ReadByte()
+			if left >= 1 {
+				if err != nil || b != wire[cursor] {
+					ok = false
+				}
+				cursor++
+			} else {
+				if err == nil {
+					errOK = false
+				}
+				failed = true
+			}
+		case 3:
+			n := zzSize("read")
+			buf := make([]byte, n)
+			m, err := c.Read(buf)
+			if left >= 1 {
+				// (a Read may deliver the last bytes together with the end-of-input error)
+				if m < 1 || m > n || m > left || !bytes.Equal(buf[:m], wire[cursor:cursor+m]) || (err != nil && cursor+m != total) {
+					ok = false
+				}
+				cursor += m
+			} else {
+				if err == nil || m != 0 {
+					errOK = false
+				}
+				failed = true
+			}
+		case 4:
+			n := zzSize("skip")
+			buffered := c.Len()
+			err := c.Skip(n)
+			if n <= buffered {
+				if err != nil {
+					ok = false
+				}
+				cursor += n
+			} else if err == nil {
+				errOK = false
+			}
+		}
+	}
+	zz.Cover("reached-assert", true)
+	zz.Cover("hit-end-of-input", failed)
+	zz.Assert("bytes-are-the-sent-bytes-in-order", ok)
+	zz.Assert("operation-beyond-end-of-input-reports-an-error", errOK)
+	zz.Assert("nothing-lost-after-a-failed-peek", restOK)
+}
